@@ -6,6 +6,8 @@ import json
 import multiprocessing
 import os
 import sys
+import signal
+import threading
 import time
 import traceback
 
@@ -69,6 +71,38 @@ class SubCheck:
         """Raise HarnessError if a seam this check depends on is disconnected."""
 
 
+class _CaseHang(BaseException):
+    pass
+
+
+def _alarm(signum, frame):
+    raise _CaseHang()
+
+
+def _execute_watched(sub, case, env):
+    """sub.execute under a watchdog.  A case normally takes milliseconds to a few seconds; one that is still running after
+    case_timeout_s / 3 (default 20 s) is interrupted and run ONCE more with the full time (60 s); if it does not finish then
+    either, the library call is reported as not returning (<pid>/no-progress/...).  A single slow run is never reported."""
+    limit = getattr(sub, 'case_timeout_s', 60)
+    if not limit or threading.current_thread() is not threading.main_thread():
+        return sub.execute(case, env)
+    for attempt in (1, 2):
+        old = signal.signal(signal.SIGALRM, _alarm)
+        signal.setitimer(signal.ITIMER_REAL, limit / 3.0 if attempt == 1 else limit)
+        try:
+            return sub.execute(case, env)
+        except _CaseHang:
+            if attempt == 2:
+                pid = sub.__class__.__module__.rsplit('.', 1)[-1].upper()
+                raise Violation(
+                    '%s/no-progress/%s' % (pid, sub.name),
+                    'the case was still running after %d s and, run again, after %d s (such cases take well under a second): a call does not return' % (limit / 3, limit),
+                )
+        finally:
+            signal.setitimer(signal.ITIMER_REAL, 0)
+            signal.signal(signal.SIGALRM, old)
+
+
 class _Collector:
     def __init__(self, sub, env, known_sigs):
         self.sub = sub
@@ -97,7 +131,7 @@ class _Collector:
             self.skipped_after_budget += 1
             return
         try:
-            out = sub.execute(case, env) or {}
+            out = _execute_watched(sub, case, env) or {}
         except Violation as v:
             if v.signature in self.known or v.signature in self.suppressed:
                 self.excluded[v.signature] += 1
